@@ -154,7 +154,8 @@ def run(ctx):
                 if isinstance(e, ast.BinOp) and isinstance(e.op, ast.Sub):
                     right = v.inline(e.right) if not hasattr(e.right, "_no_inline") else e.right
                     txt = norm(right)
-                    return "diags" in txt and ".diagonal()" in txt and (norm(e.left) + ".diagonal()") in txt
+                    left_i = norm(v.inline(e.left))
+                    return "diags" in txt and ".diagonal()" in txt and ((norm(e.left) + ".diagonal()") in txt or (left_i + ".diagonal()") in txt or ("(" + left_i + ").diagonal()") in txt)
                 return False
 
             def clearing_helper(call):
